@@ -558,22 +558,25 @@ _stubs.MODULE_STUBS[("skactiveml.pool._bald", "_DynamicJointEntropy")] = _JointE
 _stubs.MODULE_STUBS[("skactiveml.pool._bald", "_compute_conditional_entropy")] = _cond_entropy_stub
 
 class AFalcun(Adapter):
-    name = "Falcun[gamma=1]"
     slow = True
     needs_clf = True
     selection = "proportional"
     product_abstraction = True
     units = ["skactiveml.pool._falcun:Falcun.query", "skactiveml.pool._uncertainty_sampling:uncertainty_scores"]
 
+    def __init__(self, gamma=1):
+        self.gamma = gamma          # gamma=0: documented as plain random sampling (relevance**0 = 1)
+        self.name = f"Falcun[gamma={gamma}]"
+
     def make(self, seed, sym=True, inputs=None, **kw):
-        return pool().Falcun(gamma=1, random_state=seed, **kw)
+        return pool().Falcun(gamma=self.gamma, random_state=seed, **kw)
 
     def call(self, qs, s, b, sym, table=None, return_utilities=True):
         return qs.query(s.X, s.y, self.clf(sym, table, s.K), candidates=s.cand, batch_size=b,
                         return_utilities=return_utilities)
 
 
-for _a in (AFalcun(), AQBC(), ACoreSet(), AGreedyX(), ADiscriminative(True), ADiscriminative(False), ATypiClust(), ABald(True),
+for _a in (AFalcun(1), AFalcun(0), AQBC(), ACoreSet(), AGreedyX(), ADiscriminative(True), ADiscriminative(False), ATypiClust(), ABald(True),
            ABald(False)):
     register(_a)
 
